@@ -16,6 +16,8 @@ pub mod c12;
 pub mod c13;
 pub mod c14;
 pub mod c15;
+pub mod c16;
+pub mod c17;
 
 pub struct Entry {
     pub id: &'static str,
@@ -40,6 +42,8 @@ pub fn lookup(id: &str) -> Option<Entry> {
         "C13" => Entry { id: "C13", check: c13::check, replay: c13::replay },
         "C14" => Entry { id: "C14", check: c14::check, replay: c14::replay },
         "C15" => Entry { id: "C15", check: c15::check, replay: c15::replay },
+        "C16" => Entry { id: "C16", check: c16::check, replay: c16::replay },
+        "C17" => Entry { id: "C17", check: c17::check, replay: c17::replay },
         _ => return None,
     })
 }
